@@ -64,6 +64,8 @@ func specialScenarios() []specialScenario {
 		logPlus([]absIng{{"k/", 1}, {"k/r1", 2}, {"k", 1}}, []absIng{{"/k", 1}, {"k//r1", 2}, {"tea/", 1}, {"tea", 1}}))
 	add("names-prefix-and-case-pairs", true, bookPlus(absRecipe{"bread", []absIng{{"cal", 2}}}, absRecipe{"bread/rye", []absIng{{"cal", 3}, {"Cal", 1}}}),
 		logPlus([]absIng{{"coffee", 1}, {"coffee/cup", 2}, {"Coffee", 1}, {"bread", 1}}, []absIng{{"coffee/cup/large", 1}, {"coffee/cup", 1}, {"bread/rye", 2}, {"Bread", 1}}))
+	add("names-continued-below-the-separator", true, bookPlus(absRecipe{"coffee-decaf/cup", []absIng{{"cal", 1}}}, absRecipe{"coffee/cup", []absIng{{"cal", 2}}}),
+		logPlus([]absIng{{"coffee/cup", 1}, {"coffee-decaf/cup", 2}, {"milk 2%/glass", 1}, {"milk/glass", 2}}, []absIng{{"ice.cream/cone", 1}, {"ice/cube", 4}, {"coffee/cup", 1}, {"a!b/c", 1}, {"a/c", 2}}))
 	add("names-repeated-segment", true, specialBaseBook, logPlus([]absIng{{"tea/tea", 2}, {"bread/white/bread/slice", 1}}, []absIng{{"bread/white/bread/loaf", 1}, {"tea/tea/tea", 1}}))
 	name23, name30 := "cheese/gouda/aged/slice", "a/rather/long/name/of/30/chars"
 	add("names-lengths-around-the-columns", true, bookPlus(absRecipe{name30, []absIng{{"an element of 22 chars", 2}, {"cal", 1}}}),
